@@ -30,3 +30,25 @@ M("C02", EV, """            raise UnknownVariableError(expr.name) from None""",
   """            return 0""", "unknown variable evaluates to 0")
 M("C02", "pymbolic/mapper/__init__.py", """        return (type(expr), expr, args, immutabledict(kwargs))""",
   """        return (expr, args, immutabledict(kwargs))""", "cache key without type (1 vs True vs 1.0)")
+
+PR = "pymbolic/primitives.py"
+M("C01", PR, """    comparison = " and ".join(
+            f"self.{fld.name} == other.{fld.name}"
+            for fld in fields(cls))""", """    comparison = " and ".join(
+            f"self.{fld.name} == other.{fld.name}"
+            for fld in fields(cls)[:2])""", "third field left out of generated __eq__")
+M("C01", PR, """            object.__setattr__(self, "kw_parameters", immutabledict(self.kw_parameters))""",
+  """            pass""", "dict kw_parameters not normalised")
+M("C01", PR, "dc_cls = dataclass(init=init, eq=False, frozen=__debug__, repr=False)(cls)",
+  "dc_cls = dataclass(init=init, eq=False, frozen=False, repr=False)(cls)", "not frozen")
+M("C01", PR, """        return (type(other) is type(self)
+                and self.__getinitargs__() == other.__getinitargs__())""",
+  """        return (type(other) is type(self)
+                and self.__getinitargs__()[:1] == other.__getinitargs__()[:1])""",
+  "legacy is_equal compares first init arg only")
+M("C01", PR, """            if self.__class__ is not other.__class__:
+                return False
+            if hash(self) != hash(other):""", """            if hash(self) != hash(other):""",
+  "both class checks dropped from generated __eq__ (1/2)", also=[(PR,
+   """            return self.__class__ == other.__class__ and {comparison}""",
+   """            return {comparison}""")])
